@@ -1,0 +1,52 @@
+//go:build verif
+
+package fox
+
+import "sync/atomic"
+
+// Verification points: named places in the critical sections of the router where an external
+// verification harness may observe or pause the calling goroutine. They exist only with the
+// "verif" build tag and do nothing unless a hook is installed with VerifSetHook.
+const (
+	vpLockWait     = iota // about to take the writer lock
+	vpLockAcquired        // writer lock taken, root not loaded yet
+	vpLoad                // the published tree has just been loaded (readers and writers)
+	vpBeforeStore         // the new tree is built, not published yet
+	vpAfterStore          // the new tree is published, the writer lock still held
+	vpAbort               // a write transaction is being aborted, the writer lock still held
+	vpUnlocked            // the writer lock has been released
+)
+
+// Exported names of the verification points.
+const (
+	VerifLockWait     = vpLockWait
+	VerifLockAcquired = vpLockAcquired
+	VerifLoad         = vpLoad
+	VerifBeforeStore  = vpBeforeStore
+	VerifAfterStore   = vpAfterStore
+	VerifAbort        = vpAbort
+	VerifUnlocked     = vpUnlocked
+)
+
+var verifHook atomic.Pointer[func(r *Router, point int)]
+
+// VerifSetHook installs (or removes, with nil) the function called at every verification point.
+func VerifSetHook(f func(r *Router, point int)) {
+	if f == nil {
+		verifHook.Store(nil)
+		return
+	}
+	verifHook.Store(&f)
+}
+
+func verifPoint(r *Router, point int) {
+	if h := verifHook.Load(); h != nil {
+		(*h)(r, point)
+	}
+}
+
+// VerifTreeInfo exposes the bookkeeping of the published tree that the public API does not show.
+func VerifTreeInfo(r *Router) (size int, maxParams, depth uint32) {
+	t := r.getRoot()
+	return t.size, t.maxParams, t.depth
+}
